@@ -13,9 +13,13 @@ RULE = ("op sequences over a 29-op alphabet (add option / command option with al
         "query vector (command names WITH aliases, positions -2..6) of the builder and of builder.format are compared, the "
         "format finished BEFORE the op is queried again after it (a finished format stays what it was), plus "
         "ArgsFormat(elements, base) for add-only sequences; a family built through CommandConfig.add_option/add_argument/"
-        "build_args_format on the same bases; non-trivial = >= 1 rejection or >= 2 accepted elements; distinct by (bases, ops)")
-TRUSTED = ["that a finished format does not change when its builder moves on is checked on the implementation only (in the model a "
-           "format is a value)"]
+        "build_args_format on the same bases (11 configurations, 4 of them colliding within themselves, those on the empty base); "
+        "names that differ only in CASE ('f' / 'F', 'bar' / 'Bar'): 8 such elements exhaustive to length 3 on the empty base and on "
+        "a base holding 'F' and 'B', and in 30 % of the random sequences; every level of the base chain is asked its full query "
+        "vector again after the last op (a base does not change by what is built on top of it); non-trivial = >= 1 rejection or "
+        ">= 2 accepted elements; distinct by (bases, ops)")
+TRUSTED = ["that a finished format does not change when its builder moves on, and that a base format does not change by what is built "
+           "on top of it, are checked on the implementation only (in the model a format is a value)"]
 ASSUMPTIONS = ["elements are valid Option/CommandOption/Argument/CommandName objects (their construction is C07)"]
 
 POOL = ["foo", "f", "bar", "b", "cmd", "c", "arg1", "arg2", "multi", "yy", "z", "baz", "other", "arg3", "F", "B", "Foo", "Bar"]
